@@ -15,7 +15,7 @@ try:
     for p in props.split(','):
         r = subprocess.run(['/verif/run.sh', '-property', p], capture_output=True, text=True)
         lines = (r.stdout + r.stderr).strip().split('\n')
-        print('\n'.join(lines[-8:]))
+        print('\n'.join([l for l in lines if 'VIOLATION' in l or '[C' in l or 'UNDECIDED' in l] or lines[-3:]))
         print('exit', r.returncode)
 finally:
     open(path, 'w').write(s)
